@@ -33,12 +33,20 @@ theorem final_counterexample_eval :
   · simp [finalOf, endOf, loopWitness, Scope.eval, Expr.eval, Scope.look, List.lookup, keyOf, floor52, Functor.map,
       Except.map]
     grind
-  · simp [loopWitness, denote, validateCons, Scope.eval, Expr.eval, c0, c5, c2, hr, getMeas, Scope.look, List.lookup,
-      chanLookup, dictOfList, dictSet, hasDup, atomicMeas, Pulse.appendAll, Pulse.append, Pulse.isEmpty, Pulse.empty,
-      sameSet, Pulse.chanNames, Pulse.withOwn, pulseVal, plEnd, plLast, pure, Except.pure, bind, Except.bind,
-      show (0 : Rat) < 1 by grind, List.foldlM, List.forM, List.mapM_cons, List.mapM_nil, pathTags, n0, n5, n2,
-      floor52, chanEmpty]
-    grind
+  · first
+    | (simp [loopWitness, denote, validateCons, Scope.eval, Expr.eval, c0, c5, c2, hr, getMeas, Scope.look, List.lookup,
+        chanLookup, dictOfList, dictSet, hasDup, atomicMeas, Pulse.appendAll, Pulse.append, Pulse.isEmpty, Pulse.empty,
+        sameSet, Pulse.chanNames, Pulse.withOwn, pulseVal, plEnd, plLast, pure, Except.pure, bind, Except.bind,
+        show (0 : Rat) < 1 by grind, List.foldlM, List.forM, List.mapM_cons, List.mapM_nil, pathTags, n0, n5, n2,
+        floor52, chanEmpty]
+       grind)
+    | (-- the variant of `QP.PT.denote` that casts the range parameters with `intOrErr`
+       simp [loopWitness, denote, validateCons, Scope.eval, Expr.eval, intOrErr, c0, c5, c2, hr, getMeas, Scope.look,
+        List.lookup, chanLookup, dictOfList, dictSet, hasDup, atomicMeas, Pulse.appendAll, Pulse.append, Pulse.isEmpty,
+        Pulse.empty, sameSet, Pulse.chanNames, Pulse.withOwn, pulseVal, plEnd, plLast, pure, Except.pure, bind,
+        Except.bind, show (0 : Rat) < 1 by grind, List.foldlM, List.forM, List.mapM_cons, List.mapM_nil, pathTags, n0, n5,
+        n2, floor52, chanEmpty]
+       grind)
 
 /-- `SequencePT(RepetitionPT(ConstantPT(1, {'A': 1}), 'n'), ConstantPT(1, {'A': 2}))` -/
 def emptyPartWitness : PT :=
